@@ -201,14 +201,18 @@ def verifyHead (T : Tree) (s : State) : State × Out :=
             else verifyFail s0 b
           else verifyDone { s0 with td := upd s0.td b (some td) } b Verdict.okNew
 
+/-- is pooled candidate `c` removed by this expiry run? A leader's child by the epoch test
+(`need_clean` looks at one child of the leader; all children of one parent have the same epoch),
+any other pooled block iff its parent was removed in this run. `gone` = ids removed so far. -/
+def expGone (T : Tree) (pool0 : List Nat) (tipEpoch : Nat) (gone : List Nat) (c : Nat) : Bool :=
+  if T.par c ∈ pool0 then decide (T.par c ∈ gone) else decide (T.epoch c + EXPIRED_EPOCH < tipEpoch)
+
 /-- one candidate of `clean_expired_orphans`; `acc.2` = ids removed so far in this run -/
 def stepExpire (T : Tree) (pool0 : List Nat) (tipEpoch : Nat) (acc : State × List Nat) (c : Nat) :
     State × List Nat :=
   let s := acc.1
   if c ∈ s.pool then
-    let p := T.par c
-    let gone := if p ∈ pool0 then decide (p ∈ acc.2) else decide (T.epoch c + EXPIRED_EPOCH < tipEpoch)
-    if gone then
+    if expGone T pool0 tipEpoch acc.2 c then
       ({ unpool s c with stored := upd s.stored c false, invalid := upd s.invalid c false,
                          expiryFired := true }, acc.2 ++ [c])
     else acc
